@@ -56,6 +56,9 @@ def _shrink(mod, prop, case, rounds=12, open_findings=()):
     return cur
 
 
+ESCALATION_ROUNDS = 5
+
+
 def run_check(prop, tier, seed):
     t0 = time.time()
     mod = importlib.import_module("props." + prop)
@@ -69,6 +72,18 @@ def run_check(prop, tier, seed):
     if hasattr(mod, "prepare"):
         corpus = [mod.prepare(c) for c in corpus]
     cases = corpus + mod.gen(rng, tier)
+    # the source differs from the fingerprints the model was reconciled with, in a file this property is
+    # anchored in: explore several seeds' worth of inputs (a deeper search, not an alarm by itself)
+    changed = core.changed_functions()
+    escalated = tier == "quick" and core.touches(prop, changed)
+    if escalated:
+        seen_cases = {json.dumps(c, sort_keys=True, default=str) for c in cases}
+        for k in range(1, ESCALATION_ROUNDS):
+            for c in mod.gen(random.Random(seed + 7919 * k), tier):
+                j = json.dumps(c, sort_keys=True, default=str)
+                if j not in seen_cases:
+                    seen_cases.add(j)
+                    cases.append(c)
     for i, c in enumerate(cases):
         c.setdefault("origin", "corpus" if i < len(corpus) else "generated")
 
@@ -188,6 +203,8 @@ def run_check(prop, tier, seed):
         "known_finding_hits": dict(known_hits),
         "theorems": core.theorem_names(mod.PROP_FILES),
         "corpus_cases": len(corpus),
+        "source_functions_changed": changed[:40],
+        "escalated_rounds": ESCALATION_ROUNDS if escalated else 1,
     }
     core.write_evidence(prop, tier, seed, b, coverage, getattr(mod, "ASSUMPTIONS", []),
                         time.time() - t0, violations)
